@@ -199,3 +199,23 @@ impl<T: Eq> FromIterator<T> for VecSet<T> { fn from_iter<I: IntoIterator<Item = 
 impl<T: Eq> Extend<T> for VecSet<T> { fn extend<I: IntoIterator<Item = T>>(&mut self, it: I) { for t in it { self.insert(t); } } }
 impl<T: Eq> PartialEq for VecSet<T> { fn eq(&self, o: &Self) -> bool { self.len() == o.len() && self.is_subset(o) } }
 impl<T: Eq> Eq for VecSet<T> {}
+
+// serde: `Value` derives Serialize/Deserialize and, in verification builds, holds a `VecMap` in its Map variant
+impl<K: serde::Serialize, V: serde::Serialize> serde::Serialize for VecMap<K, V> {
+    fn serialize<S: serde::Serializer>(&self, s: S) -> Result<S::Ok, S::Error> { s.collect_map(self.iter()) }
+}
+impl<'de, K: serde::Deserialize<'de> + Eq, V: serde::Deserialize<'de>> serde::Deserialize<'de> for VecMap<K, V> {
+    fn deserialize<D: serde::Deserializer<'de>>(d: D) -> Result<Self, D::Error> {
+        struct Vis<K, V>(std::marker::PhantomData<(K, V)>);
+        impl<'de, K: serde::Deserialize<'de> + Eq, V: serde::Deserialize<'de>> serde::de::Visitor<'de> for Vis<K, V> {
+            type Value = VecMap<K, V>;
+            fn expecting(&self, f: &mut fmt::Formatter<'_>) -> fmt::Result { f.write_str("a map") }
+            fn visit_map<A: serde::de::MapAccess<'de>>(self, mut a: A) -> Result<Self::Value, A::Error> {
+                let mut m = VecMap::default();
+                while let Some((k, v)) = a.next_entry()? { m.insert(k, v); }
+                Ok(m)
+            }
+        }
+        d.deserialize_map(Vis(std::marker::PhantomData))
+    }
+}
